@@ -9,6 +9,10 @@ CLAIMED = {
          "Round trip, canonical form (existence+uniqueness against a relational TLV8 spec), totality of decoding, no-short-value, expected-filter and BLE reassembly are Lean theorems for all lists/lengths/byte strings; the model is tied to the code by boundary-exhaustive and random differential streams, and the same properties are evaluated on the implementation against an independent reference reader/writer.",
          "Lean kernel; axioms propext/Classical.choice/Quot.sound; translator (TLV constants, MAX_REASSEMBLY); differential harness; CPython bytes semantics. PDU layer below _pairing_char_write replaced by a scripted responder (see C17).",
          "4/C15"),
+ "C05": ("Lean 4 theorems (loop invariants, induction over reads and frames) on a model of SecureHomeKitProtocol with an abstract AEAD + differential correspondence using an executable ChaCha20-Poly1305",
+         "Inbound segmentation-independence (any opener, any state, any list of reads), inbound correctness for any accessory frame sizes, rejection of a non-authenticating frame with nothing delivered after it, 'only opener outputs are delivered', and outbound chunking/decodability by a spec reader are Lean theorems with no bound on sizes or number of reads; the tie is differential on send_bytes/data_received with every single and double cut of small streams and every single-bit corruption.",
+         "Lean kernel; standard axioms; translator (1024, TAG_LENGTH, struct formats); differential harness; the executable Lean ChaCha20-Poly1305 is validated against `cryptography` each run, its security is assumed; asyncio closes the transport when data_received raises.",
+         "4/C05"),
 }
 
 NOT_YET = {}
